@@ -215,3 +215,14 @@ def suites(tier, seed):
               rule="(quick: judged by the monitor only; thorough: also diffed against the list-based model, which is quadratic) " +"channel_max=65535: open every id automatically, exhaust, free and reuse, id 0 and 65535 explicitly (D3 witness)"),
     ]
     return ss
+
+
+# --- suites of neighbouring properties that also decide this one (cross-listed after wave 6) ---------
+_suites_before_wave6 = suites
+
+
+def suites(tier, seed):
+    def borrow(mod, names):
+        m = __import__("props." + mod, fromlist=["x"])
+        return [s_ for s_ in m.suites(tier, seed) if s_.name in names]
+    return borrow("c12", ("panic-drops-at-api",)) + _suites_before_wave6(tier, seed)
